@@ -27,18 +27,20 @@ type digestFn struct {
 	mb     func(myBytes) []byte
 	ss     func(string) string
 	bs     func([]byte) string
+	mss    func(myStr) string
+	mbs    func(myBytes) string
 	stream func(io.Reader) ([]byte, error)
 }
 
 var digests = []digestFn{
-	{"Md5", md5.New, hashz.Md5[string], hashz.Md5[[]byte], hashz.Md5[myStr], hashz.Md5[myBytes], hashz.Md5ToString[string], hashz.Md5ToString[[]byte], hashz.Md5Stream},
-	{"Sha1", sha1.New, hashz.Sha1[string], hashz.Sha1[[]byte], hashz.Sha1[myStr], hashz.Sha1[myBytes], hashz.Sha1ToString[string], hashz.Sha1ToString[[]byte], hashz.Sha1Stream},
-	{"Sha224", sha256.New224, hashz.Sha224[string], hashz.Sha224[[]byte], hashz.Sha224[myStr], hashz.Sha224[myBytes], hashz.Sha224ToString[string], hashz.Sha224ToString[[]byte], hashz.Sha224Stream},
-	{"Sha256", sha256.New, hashz.Sha256[string], hashz.Sha256[[]byte], hashz.Sha256[myStr], hashz.Sha256[myBytes], hashz.Sha256ToString[string], hashz.Sha256ToString[[]byte], hashz.Sha256Stream},
-	{"Sha384", sha512.New384, hashz.Sha384[string], hashz.Sha384[[]byte], hashz.Sha384[myStr], hashz.Sha384[myBytes], hashz.Sha384ToString[string], hashz.Sha384ToString[[]byte], hashz.Sha384Stream},
-	{"Sha512", sha512.New, hashz.Sha512[string], hashz.Sha512[[]byte], hashz.Sha512[myStr], hashz.Sha512[myBytes], hashz.Sha512ToString[string], hashz.Sha512ToString[[]byte], hashz.Sha512Stream},
-	{"Sha512_224", sha512.New512_224, hashz.Sha512_224[string], hashz.Sha512_224[[]byte], hashz.Sha512_224[myStr], hashz.Sha512_224[myBytes], hashz.Sha512_224ToString[string], hashz.Sha512_224ToString[[]byte], nil},
-	{"Sha512_256", sha512.New512_256, hashz.Sha512_256[string], hashz.Sha512_256[[]byte], hashz.Sha512_256[myStr], hashz.Sha512_256[myBytes], hashz.Sha512_256ToString[string], hashz.Sha512_256ToString[[]byte], nil},
+	{"Md5", md5.New, hashz.Md5[string], hashz.Md5[[]byte], hashz.Md5[myStr], hashz.Md5[myBytes], hashz.Md5ToString[string], hashz.Md5ToString[[]byte], hashz.Md5ToString[myStr], hashz.Md5ToString[myBytes], hashz.Md5Stream},
+	{"Sha1", sha1.New, hashz.Sha1[string], hashz.Sha1[[]byte], hashz.Sha1[myStr], hashz.Sha1[myBytes], hashz.Sha1ToString[string], hashz.Sha1ToString[[]byte], hashz.Sha1ToString[myStr], hashz.Sha1ToString[myBytes], hashz.Sha1Stream},
+	{"Sha224", sha256.New224, hashz.Sha224[string], hashz.Sha224[[]byte], hashz.Sha224[myStr], hashz.Sha224[myBytes], hashz.Sha224ToString[string], hashz.Sha224ToString[[]byte], hashz.Sha224ToString[myStr], hashz.Sha224ToString[myBytes], hashz.Sha224Stream},
+	{"Sha256", sha256.New, hashz.Sha256[string], hashz.Sha256[[]byte], hashz.Sha256[myStr], hashz.Sha256[myBytes], hashz.Sha256ToString[string], hashz.Sha256ToString[[]byte], hashz.Sha256ToString[myStr], hashz.Sha256ToString[myBytes], hashz.Sha256Stream},
+	{"Sha384", sha512.New384, hashz.Sha384[string], hashz.Sha384[[]byte], hashz.Sha384[myStr], hashz.Sha384[myBytes], hashz.Sha384ToString[string], hashz.Sha384ToString[[]byte], hashz.Sha384ToString[myStr], hashz.Sha384ToString[myBytes], hashz.Sha384Stream},
+	{"Sha512", sha512.New, hashz.Sha512[string], hashz.Sha512[[]byte], hashz.Sha512[myStr], hashz.Sha512[myBytes], hashz.Sha512ToString[string], hashz.Sha512ToString[[]byte], hashz.Sha512ToString[myStr], hashz.Sha512ToString[myBytes], hashz.Sha512Stream},
+	{"Sha512_224", sha512.New512_224, hashz.Sha512_224[string], hashz.Sha512_224[[]byte], hashz.Sha512_224[myStr], hashz.Sha512_224[myBytes], hashz.Sha512_224ToString[string], hashz.Sha512_224ToString[[]byte], hashz.Sha512_224ToString[myStr], hashz.Sha512_224ToString[myBytes], nil},
+	{"Sha512_256", sha512.New512_256, hashz.Sha512_256[string], hashz.Sha512_256[[]byte], hashz.Sha512_256[myStr], hashz.Sha512_256[myBytes], hashz.Sha512_256ToString[string], hashz.Sha512_256ToString[[]byte], hashz.Sha512_256ToString[myStr], hashz.Sha512_256ToString[myBytes], nil},
 }
 
 // refDigest is the lower-case hex of the crypto/* digest, computed through
@@ -138,26 +140,33 @@ func digestCase(c *ev.Case) {
 		if c.Logging() {
 			c.Logf("call %s(%s); crypto -> %s", d.name, clip(data), want)
 		}
-		var g [6]string
+		var g [8]string
 		var gs, gb, gms, gmb []byte
 		if !c.Guard(d.name+"[string]", func() { gs = d.s(in.s) }) ||
 			!c.Guard(d.name+"[[]byte]", func() { gb = d.b(in.b) }) ||
 			!c.Guard(d.name+"[myStr]", func() { gms = d.ms(myStr(in.s)) }) ||
 			!c.Guard(d.name+"[myBytes]", func() { gmb = d.mb(myBytes(in.b)) }) ||
 			!c.Guard(d.name+"ToString[string]", func() { g[4] = d.ss(in.s) }) ||
-			!c.Guard(d.name+"ToString[[]byte]", func() { g[5] = d.bs(in.b) }) {
+			!c.Guard(d.name+"ToString[[]byte]", func() { g[5] = d.bs(in.b) }) ||
+			!c.Guard(d.name+"ToString[myStr]", func() { g[6] = d.mss(myStr(in.s)) }) ||
+			!c.Guard(d.name+"ToString[myBytes]", func() { g[7] = d.mbs(myBytes(in.b)) }) {
 			return
 		}
 		g[0], g[1], g[2], g[3] = string(gs), string(gb), string(gms), string(gmb)
-		names := []string{"[string]", "[[]byte]", "[myStr]", "[myBytes]", "ToString[string]", "ToString[[]byte]"}
+		names := []string{"[string]", "[[]byte]", "[myStr]", "[myBytes]", "ToString[string]", "ToString[[]byte]", "ToString[myStr]", "ToString[myBytes]"}
 		for i := range g {
 			if g[i] != want {
 				c.Failf("digest/"+d.name, "hashz.%s%s(%s) = %q, hex of crypto digest = %q", d.name, names[i], clip(data), g[i], want)
 				return
 			}
 		}
-		checked += 6
-		c.Add("digest_oneshot_calls", 6)
+		checked += 8
+		c.Add("digest_oneshot_calls", 8)
+		c.Add("digest_named_type_calls", 4)
+		c.Add("digest_oneshot/"+d.name, 8)
+		if L == 0 {
+			c.Add("digest_empty_inputs", 1)
+		}
 		if !in.intact(c, "hashz."+d.name) {
 			return
 		}
@@ -203,6 +212,7 @@ func digestCase(c *ev.Case) {
 					return
 				}
 				c.Add("digest_stream_calls", 1)
+				c.Add("digest_stream/"+d.name, 1)
 				checked++
 			}
 			if !in.intact(c, "hashz."+d.name+"Stream") {
@@ -227,8 +237,8 @@ func digestCase(c *ev.Case) {
 		if c.Logging() {
 			c.Logf("call Hmac(key=%s, data=%s, %s); crypto/hmac -> %s", clip(key), clip(data), d.name, want)
 		}
-		var g [8]string
-		var b0, b1, b2, b3 []byte
+		var g [10]string
+		var b0, b1, b2, b3, b8 []byte
 		if !c.Guard("Hmac[string,string]", func() { b0 = hashz.Hmac(kin.s, in.s, d.newH) }) ||
 			!c.Guard("Hmac[string,[]byte]", func() { b1 = hashz.Hmac(kin.s, in.b, d.newH) }) ||
 			!c.Guard("Hmac[[]byte,string]", func() { b2 = hashz.Hmac(kin.b, in.s, d.newH) }) ||
@@ -236,24 +246,31 @@ func digestCase(c *ev.Case) {
 			!c.Guard("HmacToString[string,string]", func() { g[4] = hashz.HmacToString(kin.s, in.s, d.newH) }) ||
 			!c.Guard("HmacToString[string,[]byte]", func() { g[5] = hashz.HmacToString(kin.s, in.b, d.newH) }) ||
 			!c.Guard("HmacToString[[]byte,string]", func() { g[6] = hashz.HmacToString(kin.b, in.s, d.newH) }) ||
-			!c.Guard("HmacToString[[]byte,[]byte]", func() { g[7] = hashz.HmacToString(myBytes(kin.b), myStr(in.s), d.newH) }) {
+			!c.Guard("HmacToString[myBytes,myStr]", func() { g[7] = hashz.HmacToString(myBytes(kin.b), myStr(in.s), d.newH) }) ||
+			!c.Guard("Hmac[myStr,myBytes]", func() { b8 = hashz.Hmac(myStr(kin.s), myBytes(in.b), d.newH) }) ||
+			!c.Guard("HmacToString[[]byte,[]byte]", func() { g[9] = hashz.HmacToString(kin.b, in.b, d.newH) }) {
 			return
 		}
-		g[0], g[1], g[2], g[3] = string(b0), string(b1), string(b2), string(b3)
+		g[0], g[1], g[2], g[3], g[8] = string(b0), string(b1), string(b2), string(b3), string(b8)
 		names := []string{"Hmac[string,string]", "Hmac[string,[]byte]", "Hmac[[]byte,string]", "Hmac[[]byte,[]byte]",
-			"HmacToString[string,string]", "HmacToString[string,[]byte]", "HmacToString[[]byte,string]", "HmacToString[myBytes,myStr]"}
+			"HmacToString[string,string]", "HmacToString[string,[]byte]", "HmacToString[[]byte,string]", "HmacToString[myBytes,myStr]",
+			"Hmac[myStr,myBytes]", "HmacToString[[]byte,[]byte]"}
 		for i := range g {
 			if g[i] != want {
 				c.Failf("hmac", "hashz.%s(key=%s, data=%s, %s) = %q, hex of crypto/hmac = %q", names[i], clip(key), clip(data), d.name, g[i], want)
 				return
 			}
 		}
-		c.Add("hmac_calls", 8)
+		c.Add("hmac_calls", 10)
+		c.Add("hmac_named_type_calls", 2)
 		c.Add("hmac_hash/"+d.name, 1)
+		if kl == 0 {
+			c.Add("hmac_empty_key", 1)
+		}
 		if kl > d.newH().BlockSize() {
 			c.Add("hmac_key_longer_than_block", 1)
 		}
-		checked += 8
+		checked += 10
 		if !in.intact(c, "hashz.Hmac (data)") || !kin.intact(c, "hashz.Hmac (key)") {
 			return
 		}
@@ -263,7 +280,7 @@ func digestCase(c *ev.Case) {
 	}
 	c.Max("digest_max_len", int64(L))
 	if c.WantSample() {
-		c.Sample(fmt.Sprintf("digest: %d-byte input %s, %d results compared with crypto/* (8 one-shot digests x 6 forms, 6 stream helpers x 6 readers, 3 HMACs x 8 forms)", L, clip(data), checked))
+		c.Sample(fmt.Sprintf("digest: %d-byte input %s, %d results compared with crypto/* (8 one-shot digests x 8 forms, 6 stream helpers x 6 readers, 3 HMACs x 10 forms)", L, clip(data), checked))
 	}
 }
 
